@@ -26,13 +26,22 @@ struct Kind {
   virtual void clear(void* h, std::string& model) = 0;                      // drop the value through this handle (clear() / null assignment)
   virtual int objectId(void* h) { (void)h; return -1; }                     // RefCount::Ptr: id of the referenced object
 };
-std::string payloadText(int p) { return p == 0 ? "payload-zero-0123456789" : "second"; }
+std::string payloadText(int p) { return p == 0 ? "payload-zero-0123456789" : p == 2 ? std::string(300, 'L') + "ong-payload" : "second"; }   // 2: a payload with a capacity of some hundred bytes
 struct KString : Kind {
   void* make(int p) override { std::string t = payloadText(p); return new String(t.data(), t.size()); }
   void* copy(void* s) override { return new String(*(String*)s); }
   void destroy(void* h) override { delete (String*)h; }
   void assign(void* d, void* s) override { *(String*)d = *(String*)s; }
-  void modify(void* h, int tid, int n, std::string& m) override { char c = (char)('A' + tid); if (n & 1) { ((String*)h)->append(c); m += c; } else { String& s = *(String*)h; usize l = s.length(); s.resize(l + 1); ((char*)s)[l] = c; m += c; } }
+  void modify(void* h, int tid, int n, std::string& m) override {
+    char c = (char)('A' + tid); String& s = *(String*)h;
+    switch (((n % 5) + 5) % 5) {
+      case 1: s.append(c); m += c; break;
+      case 2: { s.printf("%c%d", c, n); char b[32]; snprintf(b, sizeof b, "%c%d", c, n); m = b; break; }   // formatting replaces the value
+      case 3: s.toUpperCase(); for (auto& ch : m) if (ch >= 'a' && ch <= 'z') ch = (char)(ch - 32); s.append(c); m += c; break;
+      case 4: s.reserve(400); s.append(c); m += c; break;
+      default: { usize l = s.length(); s.resize(l + 1); ((char*)s)[l] = c; m += c; }
+    }
+  }
   std::string read(void* h) override { const String& s = *(String*)h; return std::string((const char*)s, s.length()); }
   void clear(void* h, std::string& m) override { ((String*)h)->clear(); m.clear(); }
   std::string initial(int p) override { return payloadText(p); }
